@@ -386,6 +386,26 @@ func MustCompileOnce(src string, vars ...string) *gojq.Code {
 	return c
 }
 
+// c10Class is the magnitude class of an operand (the evidence reports which class pairs were met).
+func c10Class(x *big.Int) string {
+	n := new(big.Int).Abs(x).BitLen()
+	switch {
+	case n == 0:
+		return "0"
+	case n <= 31:
+		return "<2^31"
+	case n <= 53:
+		return "<2^53"
+	case n <= 63:
+		return "<2^63"
+	case n == 64:
+		return "<2^64"
+	case n <= 1024:
+		return "<2^1024"
+	}
+	return ">=2^1024"
+}
+
 func c10Run(c *engine.Ctx) {
 	B := c10Operands(!c.Quick())
 	c.Res.Counters["operand_values"] = int64(len(B))
@@ -410,6 +430,7 @@ func c10Run(c *engine.Ctx) {
 				}
 			}
 			c.DistinctN(1)
+			c.Outcome("operands " + c10Class(a) + " and " + c10Class(b))
 		}
 	}
 	c.Sample(map[string]any{"a": B[len(B)/2].String(), "b": B[len(B)/3].String(), "ops": "+ - * / % == != < <= > >=", "representations": "int, *big.Int, json.Number (9 pairs)"})
